@@ -1,5 +1,6 @@
 import difflib
 import re
+from copy import copy
 from dataclasses import dataclass
 from typing import (
     TYPE_CHECKING,
@@ -132,10 +133,16 @@ class SlotRef:
     def __init__(self, slot: "SlotNode", context: Context):
         self._slot = slot
         self._context = context
+        # NOTE: The same Context object may be used also for rendering the slot fill (which is when
+        # this SlotRef is rendered), in which case it then contains extra layers meant only for the fill.
+        # The slot's default content must be rendered with the layers as they were at the `{% slot %}` tag.
+        self._context_dicts = context.dicts[:]
 
     # Render the slot when the template coerces SlotRef to string
     def __str__(self) -> str:
-        return mark_safe(self._slot.nodelist.render(self._context))
+        context = copy(self._context)
+        context.dicts = self._context_dicts[:]
+        return mark_safe(self._slot.nodelist.render(context))
 
 
 class SlotIsFilled(dict):
